@@ -49,8 +49,8 @@ func lifeRuns(tier string) []base {
 			return flip(scLife(defaultParams(), []Template{tCapLow, tLong, tPoorOne}, AlphaOpts{RespKinds: []string{"ok", "bad"}, CtxOps: []string{"pause", "start", "kill"},
 				Updates: []CtxUpdate{updProvP2}, Withdraw: []string{"O2:"}}, d, b, m))
 		}},
-		{"price-subunit+zero", func() *Scenario { return scPrice(paramSet("0.1", "0.001"), "p1v", "p0", []Template{tOne, tRep2}, mainO, d, b, m) }},
-		{"mod-main", func() *Scenario { return scMod(defaultParams(), []Template{tMod1, tModPoor, tModCap}, modO, d, b, m) }},
+		{"price-subunit+zero", func() *Scenario { return scPrice(paramSet("0.1", "0.001"), "p1v", "p0", []Template{tOne, tRep2, tSuper}, mainO, d, b, m) }},
+		{"mod-main", func() *Scenario { return scMod(defaultParams(), []Template{tMod1, tModPoor, tModCap, tModHalf}, modO, d, b, m) }},
 		{"msvc", func() *Scenario { return scMsvc(defaultParams(), d-1, b-1, m) }},
 		{"life-gov", func() *Scenario {
 			// governance changes the parameters in mid-flight: tax 0.1 -> 0.5, slash 0.001 -> 0.5, max timeout 3 -> 1
@@ -217,7 +217,8 @@ func init() {
 		d, b, m := bump(tier, 7, 3, 4)
 		o := []Oracle{oracleC13{}}
 		runs := []RunSpec{{Name: "fees", Sc: scFees(paramSet("0.1", "0.001"), true, d, b, m), Oracles: o},
-			{Name: "fees-after-refund", Sc: scFeesRefund(paramSet("0.1", "0.001"), d-1, b, m-1), Oracles: o}}
+			{Name: "fees-after-refund", Sc: scFeesRefund(paramSet("0.1", "0.001"), d-1, b, m-1), Oracles: o},
+			{Name: "fees-provider-is-owner", Sc: scFeesSelf(paramSet("0.1", "0.001"), d-1, b, m), Oracles: o}}
 		runs = append(runs, runsOf(lifeRuns(tier), o, MonFlags{}, "life-main", "life-control", "mod-main")...)
 		return runs
 	}})
@@ -254,6 +255,7 @@ func init() {
 			{Name: "life-auth", Sc: scLife(defaultParams(), []Template{tOne, tRep2, tPoor}, lifeW, 7+d, 4, 2), Oracles: o},
 			{Name: "mod-auth", Sc: scMod(defaultParams(), []Template{tMod1, tModPoor}, modW, 7+d, 4, 2), Oracles: o},
 			{Name: "fees-auth", Sc: scFees(paramSet("0.1", "0.001"), true, 6+d, 3, 3), Oracles: o},
+			{Name: "fees-provider-is-owner", Sc: scFeesSelf(paramSet("0.1", "0.001"), 6+d, 3, 3), Oracles: o},
 			{Name: "msvc-reserved", Sc: scMsvc(defaultParams(), 5+d, 3, 3), Oracles: o},
 		}
 		runs = append(runs, runsOf(lifeRuns(tier), o, MonFlags{})...)
@@ -312,6 +314,7 @@ func init() {
 		return []RunSpec{
 			{Name: "life-export-points", Sc: scLife(defaultParams(), []Template{tOne, tRep2, tPoor}, mainO, 6+d, 4, 2), Oracles: o, Post: genesisPost},
 			{Name: "fees-export-points", Sc: scFees(paramSet("0.1", "0.001"), false, 5+d, 3, 3), Oracles: o, Post: genesisPost},
+			{Name: "fees-self-export-points", Sc: scFeesSelf(paramSet("0.1", "0.001"), 5+d, 3, 3), Oracles: o, Post: genesisPost},
 			{Name: "names-export-points", Sc: scNames(defaultParams(), 5+d, 3, 4), Oracles: o, Post: genesisPost},
 			{Name: "mod-export-points", Sc: scMod(defaultParams(), []Template{tMod1, tModPoor}, AlphaOpts{RespKinds: []string{"ok"}, ModOps: []string{"mpause", "mkill"}}, 6+d, 4, 2), Oracles: o, Post: genesisPost},
 		}
